@@ -8,7 +8,7 @@ GO = lambda pkg: ("package %s\n\nvar v = marker\n" % pkg).encode()
 
 FILE_GO = ["a.go", "b.go", "m.go", "z_test.go", ".hidden.go", "_under.go", "x.go", "A.go", "a-b.go", "go.go", ".go"]
 FILE_OTHER = ["README.md", "a.txt", "go", "a.gox", "b.go.bak", "Makefile", "c.GO", "d.go~", "a.go.123456789.tmp", "m.go.orig"]
-DIR_OK = ["pkg", "sub", "a-b", "a", "internal", "x.go", "v.endor", "testdata2", "Vendor", "cmd", "b", "go"]
+DIR_OK = ["pkg", "sub", "a-b", "a", "internal", "x.go", "v.endor", "testdata2", "Vendor", "cmd", "b", "go", "odd.", "dots.."]
 DIR_EXCL = ["vendor", "testdata", ".git", "_tmp", ".x", "_", "_gen.go", ".pb.go", "_.go", ".cache.go"]
 
 
@@ -88,7 +88,9 @@ def gen_args(rng, t, cwd):
             a = rng.choice([".", "./...", "./", "..."])
         elif r < 0.45 and dirs:
             d = rng.choice(dirs)
-            a = rng.choice([d, d + "/...", "./" + d, d + "/", d + "/.", os.path.join(cwd, d), os.path.join(cwd, d) + "/..."])
+            # also: arguments that END in dots which are not the "..." wildcard (a parent directory, a name ending in a dot)
+            a = rng.choice([d, d + "/...", "./" + d, d + "/", d + "/.", os.path.join(cwd, d), os.path.join(cwd, d) + "/...",
+                            d + "/..", d + "/../...", os.path.join(cwd, d) + "/..", d + "/./.."])
         elif r < 0.75 and files:
             f = rng.choice(files)
             dn, bn = os.path.dirname(f), os.path.basename(f)
